@@ -21,6 +21,9 @@ type MCG struct {
 	Boxed      []*ssa.Function                         // in-scope functions boxed into an interface (reflect.Call targets)
 	BoxedExt   []*ssa.Function                         // out-of-scope functions boxed into an interface
 	AddrTaken  map[*ssa.Function]bool
+	staticUse  map[*ssa.Function][]ssa.CallInstruction // direct call sites of each function (pass 1)
+	boxedSet   map[*ssa.Function]bool
+	paramSrc   map[*ssa.Parameter]map[*ssa.Function][]*ssa.Function
 	named      []types.Type // named types of Scope (T and *T are both tried)
 	boxedTypes map[types.Type]bool
 }
@@ -29,6 +32,9 @@ type Edge struct {
 	Site   ssa.CallInstruction // nil for synthetic edges
 	Callee *ssa.Function
 	Kind   string // static | invoke | dynamic | callback | reflect
+	// Cond: for a call through a function-typed parameter, the functions whose call sites pass
+	// this callee; the edge exists only when one of them is itself reachable (nil: unconditional)
+	Cond []*ssa.Function
 }
 
 type ExtCall struct {
@@ -44,7 +50,8 @@ var callbackMethodNames = map[string]bool{
 func BuildMCG(w *World, scope PkgSet) *MCG {
 	g := &MCG{W: w, Scope: scope, InSc: map[*ssa.Function]bool{}, Out: map[*ssa.Function][]Edge{},
 		Ext: map[*ssa.Function][]ExtCall{}, Sites: map[ssa.CallInstruction][]*ssa.Function{},
-		AddrTaken: map[*ssa.Function]bool{}, boxedTypes: map[types.Type]bool{}}
+		AddrTaken: map[*ssa.Function]bool{}, boxedTypes: map[types.Type]bool{}, staticUse: map[*ssa.Function][]ssa.CallInstruction{},
+		paramSrc: map[*ssa.Parameter]map[*ssa.Function][]*ssa.Function{}}
 	all := ssautil.AllFunctions(w.Prog)
 	for fn := range all {
 		if p := fnPkg(fn); p != nil && scope[p] {
@@ -92,6 +99,9 @@ func BuildMCG(w *World, scope PkgSet) *MCG {
 				if ci, ok := ins.(ssa.CallInstruction); ok {
 					if !ci.Common().IsInvoke() {
 						calleeVal = ci.Common().Value
+						if sc := ci.Common().StaticCallee(); sc != nil {
+							g.staticUse[sc] = append(g.staticUse[sc], ci)
+						}
 					}
 				}
 				for _, op := range ins.Operands(nil) {
@@ -133,6 +143,7 @@ func BuildMCG(w *World, scope PkgSet) *MCG {
 			}
 		}
 	}
+	g.boxedSet = boxed
 	for f := range boxed {
 		if g.InSc[f] {
 			g.Boxed = append(g.Boxed, f)
@@ -204,6 +215,12 @@ func (g *MCG) funcValues(v ssa.Value, seen map[ssa.Value]bool) []*ssa.Function {
 		return g.funcValues(v.X, seen)
 	case *ssa.Const:
 		return nil
+	case *ssa.Parameter:
+		// a function-typed parameter of an unexported plain function that is only ever called
+		// directly: the values its call sites pass (each remembered with the calling function)
+		if fs := g.paramFuncValues(v, seen); fs != nil {
+			return fs
+		}
 	case *ssa.Call:
 		// a function value returned by a statically known module function: the values it returns
 		if callee := v.Call.StaticCallee(); callee != nil && len(callee.Blocks) > 0 && callee.Signature.Results().Len() == 1 {
@@ -246,6 +263,59 @@ func (g *MCG) funcValues(v ssa.Value, seen map[ssa.Value]bool) []*ssa.Function {
 	return out
 }
 
+// paramFuncValues: see funcValues. nil when the parameter's function can be called in a way the
+// module does not show (exported, a method, address-taken, boxed) or an argument is unknown.
+func (g *MCG) paramFuncValues(p *ssa.Parameter, seen map[ssa.Value]bool) []*ssa.Function {
+	f := p.Parent()
+	if f == nil || !g.InSc[f] || f.Signature.Recv() != nil || f.Parent() != nil || g.AddrTaken[f] || g.boxedSet[f] || g.boxedSet == nil {
+		return nil
+	}
+	if obj := f.Object(); obj == nil || obj.Exported() {
+		return nil
+	}
+	idx := -1
+	for i, q := range f.Params {
+		if q == p {
+			idx = i
+		}
+	}
+	sites := g.staticUse[f]
+	if idx < 0 || len(sites) == 0 {
+		return nil
+	}
+	src := map[*ssa.Function][]*ssa.Function{}
+	var out []*ssa.Function
+	for _, site := range sites {
+		args := site.Common().Args
+		if idx >= len(args) {
+			return nil
+		}
+		if k, ok := args[idx].(*ssa.Const); ok && k.IsNil() {
+			continue
+		}
+		sub := map[ssa.Value]bool{}
+		for k, v := range seen {
+			sub[k] = v
+		}
+		fs := g.funcValues(args[idx], sub)
+		if fs == nil {
+			return nil
+		}
+		for _, cf := range fs {
+			if src[cf] == nil {
+				out = append(out, cf)
+			}
+			src[cf] = append(src[cf], site.Parent())
+		}
+	}
+	if len(out) == 0 {
+		return nil
+	}
+	g.paramSrc[p] = src
+	sortFns(out)
+	return out
+}
+
 func (g *MCG) addEdge(from *ssa.Function, site ssa.CallInstruction, callee *ssa.Function, kind string) {
 	if callee == nil {
 		return
@@ -259,7 +329,7 @@ func (g *MCG) addEdge(from *ssa.Function, site ssa.CallInstruction, callee *ssa.
 			return
 		}
 	}
-	g.Out[from] = append(g.Out[from], Edge{site, callee, kind})
+	g.Out[from] = append(g.Out[from], Edge{Site: site, Callee: callee, Kind: kind})
 	if site != nil && kind != "callback" && kind != "reflect" {
 		// only edges whose arguments correspond positionally to the callee's parameters
 		g.Sites[site] = append(g.Sites[site], callee)
@@ -334,6 +404,13 @@ func (g *MCG) addCallEdges(from *ssa.Function, ci ssa.CallInstruction) {
 	fs := g.funcValues(c.Value, nil)
 	for _, f := range fs {
 		g.addEdge(from, ci, f, "dynamic")
+		if p, ok := c.Value.(*ssa.Parameter); ok && g.paramSrc[p] != nil && g.InSc[f] {
+			for i := range g.Out[from] {
+				if e := &g.Out[from][i]; e.Site == ci && e.Callee == f {
+					e.Cond = g.paramSrc[p][f]
+				}
+			}
+		}
 	}
 	if len(fs) == 0 {
 		g.Ext[from] = append(g.Ext[from], ExtCall{ci, nil})
@@ -422,18 +499,61 @@ func (g *MCG) Reach(roots ...*ssa.Function) *Reach {
 			q = append(q, f)
 		}
 	}
-	for len(q) > 0 {
-		f := q[0]
-		q = q[1:]
-		for _, e := range g.Out[f] {
-			if !r.Set[e.Callee] {
+	type held struct {
+		from *ssa.Function
+		e    Edge
+	}
+	var waiting []held // conditional edges whose passing call sites are not reached (yet)
+	for {
+		for len(q) > 0 {
+			f := q[0]
+			q = q[1:]
+			for _, e := range g.Out[f] {
+				if r.Set[e.Callee] {
+					continue
+				}
+				if len(e.Cond) > 0 {
+					active := false
+					for _, src := range e.Cond {
+						if r.Set[src] {
+							active = true
+						}
+					}
+					if !active {
+						waiting = append(waiting, held{f, e})
+						continue
+					}
+				}
 				r.Set[e.Callee] = true
 				r.Parent[e.Callee] = f
 				q = append(q, e.Callee)
 			}
+			// anonymous functions are reachable with their parent only if referenced; MakeClosure
+			// makes them address-taken, and a call edge is added where they are called.
 		}
-		// anonymous functions are reachable with their parent only if referenced; MakeClosure
-		// makes them address-taken, and a call edge is added where they are called.
+		var still []held
+		for _, h := range waiting {
+			if r.Set[h.e.Callee] {
+				continue
+			}
+			active := false
+			for _, src := range h.e.Cond {
+				if r.Set[src] {
+					active = true
+				}
+			}
+			if active {
+				r.Set[h.e.Callee] = true
+				r.Parent[h.e.Callee] = h.from
+				q = append(q, h.e.Callee)
+			} else {
+				still = append(still, h)
+			}
+		}
+		waiting = still
+		if len(q) == 0 {
+			break
+		}
 	}
 	return r
 }
